@@ -22,10 +22,13 @@ structure St where
 deriving Repr
 
 def isAsym (kt : String) : Bool :=
-  ["ed25519", "p256der", "p256", "p384", "p521", "x25519kw", "p256kw", "bbs", "secp256k1"].contains kt
+  ["ed25519", "p256der", "p256", "p384", "p521", "x25519kw", "p256kw", "p384kw", "p521kw", "bbs", "secp256k1"].contains kt
 
 /-- key types for which `kmsdidkey` derives a key id from the did:key form (key agreement keys and Ed25519) -/
-def didKeyDerivable (kt : String) : Bool := ["ed25519", "x25519kw", "p256kw"].contains kt
+def didKeyDerivable (kt : String) : Bool := ["ed25519", "x25519kw", "p256kw", "p384kw", "p521kw"].contains kt
+
+/-- NIST key agreement keys: the did:key built from the public JWK equals the did:key built from the key (flag `j1`) -/
+def jwkDidKey (kt : String) : Bool := ["p256kw", "p384kw", "p521kw"].contains kt
 
 def importable (kt : String) : Bool := ["ed25519", "p256", "p256der", "p384"].contains kt
 
@@ -37,14 +40,14 @@ def step (s : St) (op : String) (failAt : Option Nat) : St × String :=
     if failsAt 0 then (s, "err") else
     let k : K := ⟨s.next, isAsym kt, if isAsym kt then "1" else "-", false, true, false⟩
     ({ keys := s.keys ++ [k], store := s.next :: s.store, next := s.next + 1 },
-      "ok:" ++ k.flag ++ (if didKeyDerivable kt then "d1" else ""))
+      "ok:" ++ k.flag ++ (if didKeyDerivable kt then "d1" else "") ++ (if jwkDidKey kt then "j1" else ""))
   | ["createexp", kt] =>
     if failsAt 0 then (s, "err") else
     if !isAsym kt then ({ s with store := s.next :: s.store, next := s.next + 1 }, "err")   -- created, export refused
     else
       let k : K := ⟨s.next, true, "1", false, true, true⟩
       ({ keys := s.keys ++ [k], store := s.next :: s.store, next := s.next + 1 },
-        "ok:1" ++ (if didKeyDerivable kt then "d1" else ""))
+        "ok:1" ++ (if didKeyDerivable kt then "d1" else "") ++ (if jwkDidKey kt then "j1" else ""))
   | ["import", kt, mode] =>
     if !importable kt then (s, "skip") else
     let dup := mode == "dupid" && !s.keys.isEmpty
@@ -123,7 +126,8 @@ def oracle06 (impl : String) : String × String :=
   | [opsS, tail] =>
     let outs := opsS.splitOn " "
     let notThumb := outs.any fun o => o == "ok:0" || o.startsWith "ok:0d"
-    let didKeyDiffers := outs.any fun o => o.endsWith "d0" || o.endsWith "d?" || o.endsWith "d-"
+    let didKeyDiffers := outs.any fun o => o.endsWith "d0" || o.endsWith "d?" || o.endsWith "d-" ||
+      o.endsWith "j0" || o.endsWith "j?" || (o.splitOn "d0").length > 1 || (o.splitOn "d?").length > 1
     let probes := ((tail.splitOn "reopen: ").getLast?.getD "").splitOn " " |>.filter (· != "")
     let lost := probes.any fun p => p.startsWith "live:fail"
     let changed := probes.any fun p => p.endsWith "/0"
